@@ -439,6 +439,26 @@ class BackwardScheduler(IScheduler):
 
         return date + timedelta(days=1) - timedelta(hours=24 * percent)
 
+    def __max_date_from_parents(
+            self,
+            _task: Task,
+            resource_usage: _ResourceUsage,
+            calculated: List[int]
+    ) -> datetime:
+        # A task reached through a dependency link (before its parents were visited) has to be finished
+        # before the successors of its parents exactly as if it had been reached through the hierarchy.
+        res = self.__end
+        for parent in _task.all_parents:
+            for succ in parent.successors:
+                self.__max_date_from_parents_and_pass(succ, resource_usage, calculated)
+                if succ.start is not None:
+                    res = min(res, succ.start)
+        return res
+
+    def __max_date_from_parents_and_pass(self, _task: Task, resource_usage: _ResourceUsage, calculated: List[int]):
+        self.__backward_pass(_task, self.__max_date_from_parents(_task, resource_usage, calculated),
+                             resource_usage, calculated)
+
     def __backward_pass(
             self,
             _task: Task,
@@ -450,7 +470,7 @@ class BackwardScheduler(IScheduler):
             return
 
         for pred in _task.successors:
-            self.__backward_pass(pred, min_date, resource_usage, calculated)
+            self.__max_date_from_parents_and_pass(pred, resource_usage, calculated)
 
         min_successor_starts = min([t.start for t in _task.successors if t.start is not None] + [min_date])
 
